@@ -57,6 +57,10 @@ def _history(rng, keys, absent, n_ops, lo=-9):
             ops.append({"t": t, "perm": perm, "xs": [rng.randint(0, 50) for _ in keys]})
         elif t in ("contains", "hs_contains"):
             ks = htgen.queries(rng, keys, absent, maxlen=5) + ([rng.choice(absent)] if absent and rng.random() < 0.5 else [])
+            if absent and rng.random() < 0.4:       # the same absent key several times in one query, among present ones
+                a1 = rng.choice(absent)
+                ks = ks + [a1] * rng.randint(2, 3) + [rng.choice(keys)] + [rng.choice(absent)] * 2
+                rng.shuffle(ks)
             ops.append({"t": t, "ks": ks})
         else:
             ops.append({"t": t})
